@@ -242,6 +242,9 @@ func orderFloors(c *core.Ctx, hooks []hx.HookSpec, op string, r refResult) {
 			// the difference of the two weights does not fit an int64
 			c.Floor("order:weights-more-than-2^63-apart")
 		}
+		if a.Weight != b.Weight && (strings.HasPrefix(strings.TrimLeft(a.WeightRaw, "+-"), "0") || strings.HasPrefix(strings.TrimLeft(b.WeightRaw, "+-"), "0")) {
+			c.Floor("spelling:zero-padded-weight-decides")
+		}
 		switch {
 		case a.Weight < b.Weight && a.Name > b.Name:
 			c.Floor("order:weight-decides")
@@ -296,6 +299,21 @@ func check(c *core.Ctx, t *opspace.Transition) {
 			replayData{Replay: opspace.Replay{Driver: t.Driver, Init: initName(t.Init), Path: t.Path}, Key: key, Tier: c.Tier})
 	}
 
+	if r.Deleted {
+		// a repeated uninstall of a release whose resources an earlier uninstall already
+		// removed: there is no lifecycle event left, no hook and no resource may be touched
+		c.Distinct(fmt.Sprintf("%s|%s|%v", t.Driver, t.Init, hist))
+		c.Outcome("uninstall:already-deleted")
+		c.Floor("uninstall:repeated-on-deleted-release")
+		if len(obs) > 0 || len(hookReqs) > 0 {
+			violate("gone", "requests-for-an-already-deleted-release", fmt.Sprintf("the release was already uninstalled, yet the server saw %v %v", obs, hookReqs))
+		}
+		lastBad = t
+		return
+	}
+	if op.Kind == "uninstall" && failuresBefore > 0 && len(t.Path) > 1 && t.Path[len(t.Path)-2].Op.Kind == "uninstall" && len(r.Ran) > 0 {
+		c.Floor("uninstall:repeated-after-failed-pre-delete-hook")
+	}
 	// statistics, vacuity floors
 	c.Distinct(fmt.Sprintf("%s|%s|%v", t.Driver, t.Init, hist))
 	outcome := "ok"
